@@ -264,7 +264,7 @@ def run_load(lengths):
                 BYTES_MODELS + VEC_MODELS + STD_CMP_MODELS + GENERIC_MODELS
             st = State()
             st.env["_1"] = Opaque("pager")
-            ex = Exec(fn, models, bound=N + 4, mf=mf, inline=r".", max_paths=50)
+            ex = Exec(fn, models, bound=N + 4, mf=mf, inline=r".", max_paths=2000)
             for p in ex.run("bb0", st):
                 if p.kind == "panic":
                     failed.append("IdMap::load can panic for a table of %d records: %s" % (N, str(p.info)[:60]))
